@@ -24,17 +24,24 @@ RowSet(x) == {<<r[1], r[2]>> : r \in ToSet(x)}
 \* notifications published by this step = what every subscriber received since the previous line
 NewEvents == SubSeq(published', Len(published) + 1, Len(published'))
 EvOf(e) == [d |-> e[1], k |-> e[2]]
+\* Cur.evs is a record: subscriber id |-> notifications it received since the previous line. Exactly the
+\* subscribers subscribed during the call report, and each of them received exactly the new notifications.
 EventsOK ==
   CheckEvents =>
-    \A i \in 1..Len(Cur.evs) :
-       LET got == Cur.evs[i] IN
-       /\ Len(got) = Len(NewEvents)
-       /\ \A j \in 1..Len(got) : EvOf(got[j]) = NewEvents[j]
+    /\ DOMAIN Cur.evs = subs
+    /\ \A s \in subs :
+         LET got == Cur.evs[s] IN
+         /\ Len(got) = Len(NewEvents)
+         /\ \A j \in 1..Len(got) : EvOf(got[j]) = NewEvents[j]
 
 TReset == /\ Is("reset") /\ Step
           /\ db' = [d \in Docs |-> Absent] /\ cver' = 0 /\ lastw' = [d \in Docs |-> 0]
-          /\ tx' = [t \in Txns |-> TxInit] /\ published' = <<>> /\ nops' = 0 /\ chist' = <<>> /\ hist' = <<>>
+          /\ tx' = [t \in Txns |-> TxInit] /\ published' = <<>> /\ subs' = {} /\ nops' = 0 /\ chist' = <<>> /\ hist' = <<>>
 
+TSub     == Is("sub")   /\ Step /\ Subscribe(Cur.s)
+TUnsub   == Is("unsub") /\ Step /\ Unsubscribe(Cur.s)
+TTouchE  == Is("touch") /\ Cur.t # 0 /\ Step /\ TTouch(Cur.t, Cur.d, Cur.res) /\ EventsOK
+TTouchI  == Is("touch") /\ Cur.t = 0 /\ Step /\ ITouch(Cur.d, Cur.res, Cur.res = "fault") /\ EventsOK
 TBegin   == Is("begin")   /\ Step /\ Begin(Cur.t) /\ EventsOK
 TDiscard == Is("discard") /\ Step /\ Discard(Cur.t) /\ EventsOK
 TCommit  == Is("commit")  /\ Step /\ Commit(Cur.t, Cur.res) /\ EventsOK
@@ -54,8 +61,8 @@ TDone    == l > Len(Trace) /\ UNCHANGED tvars
 
 TraceInit == Init /\ l = 1
 TraceNext == TReset \/ TBegin \/ TDiscard \/ TCommit \/ TCreateE \/ TUpdateE \/ TDeleteE \/ TQueryE
-             \/ TCreateI \/ TUpdateI \/ TDeleteI \/ TQueryI \/ TIdsE \/ TIdsI \/ TGetE \/ TGetI \/ TDone
+             \/ TCreateI \/ TUpdateI \/ TDeleteI \/ TQueryI \/ TIdsE \/ TIdsI \/ TGetE \/ TGetI \/ TSub \/ TUnsub \/ TTouchE \/ TTouchI \/ TDone
 TraceSpec == TraceInit /\ [][TraceNext]_tvars
 \* bounds of the generator do not apply to recorded traces
-TraceView == <<db, cver, lastw, tx, published, l>>
+TraceView == <<db, cver, lastw, tx, published, subs, l>>
 =============================================================================
